@@ -690,8 +690,9 @@ pub fn format_compile_diagnostics(diagnostics: &Diagnostics, src: &str) -> Vec<S
             diagnostic.severity() == Severity::Error && diagnostic.stage() == &compile_stage
         })
         .map(|diagnostic| {
-            if let Some(range) = diagnostic.range() {
-                let line_col = index.line_col(range.start());
+            if let Some(range) = diagnostic.range()
+                && let Some(line_col) = index.try_line_col(range.start())
+            {
                 format!(
                     "{}:{}: {}",
                     line_col.line + 1,
